@@ -349,6 +349,21 @@ func oneRun(mode string, seed int64, id int) (rec, bool) {
 		}
 		observe()
 	}
+	// e2e: a burst of lines that no stream has been woken for yet is still pending when shutdown is requested; the
+	// graceful shutdown reads and delivers them.  Hook events are no longer recorded (the trace ends here); what is
+	// compared afterwards is the property itself: lines received by the loader = lines delivered by the streams.
+	burst := 0
+	if mode == "e2e" && !stuck {
+		curMu.Lock()
+		cur = nil
+		curMu.Unlock()
+		burst = 20 + rng.Intn(60)
+		for i := 0; i < burst; i++ {
+			if _, err := fh[1+i%NF].WriteString("burst " + strconv.Itoa(i) + "\n"); err != nil {
+				vh.Fatal("%v", err)
+			}
+		}
+	}
 	// shut down
 	fin := make(chan struct{})
 	go func() {
@@ -374,7 +389,15 @@ func oneRun(mode string, seed int64, id int) (rec, bool) {
 	curMu.Unlock()
 	r.mu.Lock()
 	defer r.mu.Unlock()
-	return rec{"run": id, "mode": mode, "seed": seed, "stuck": stuck, "trace": r.trace, "nprogs": NP, "nfiles": nfiles}, stuck
+	out := rec{"run": id, "mode": mode, "seed": seed, "stuck": stuck, "trace": r.trace, "nprogs": NP, "nfiles": nfiles}
+	if mode == "e2e" && !stuck {
+		var sum int64
+		for f := 1; f <= nfiles; f++ {
+			sum += mapInt("log_lines_total", files[f])
+		}
+		out["shutdown"] = rec{"burst": burst, "lines_total": expvar.Get("lines_total").(*expvar.Int).Value() - base, "log_lines_sum": sum}
+	}
+	return out, stuck
 }
 
 func main() {
